@@ -1,2 +1,60 @@
--- stub: replaced by the component's line-protocol driver
-def main : IO Unit := pure ()
+import CelmaVerif.Base.Proto
+import CelmaVerif.Model.Keys
+/- line-protocol driver for the keys component (C05) -/
+open CelmaVerif CelmaVerif.Keys CelmaVerif.Proto
+
+structure St where
+  table : List (Key × Nat) := []
+
+def toChars (bs : List Nat) : List Char := bs.map Char.ofNat
+def ofChars (cs : List Char) : List Nat := cs.map Char.toNat
+def b01 (b : Bool) : String := if b then "1" else "0"
+
+def resLine {α : Type} (r : Res α) (f : α → String) : String :=
+  match r with
+  | .ok a => f a
+  | .throw e => s!"throw {e.name}"
+  | .oob w => s!"oob {w}"
+
+def findLine (r : Res (Option (Nat × Nat))) : String :=
+  resLine r fun
+    | some (_, payload) => s!"ok {payload}"
+    | none => "ok none"
+
+def step (s : St) (line : String) : St × String :=
+  match tokens line with
+  | ["case", _] => ({}, "ok")
+  | ["keys", "add", hx] =>
+    match hexDecode hx with
+    | some bs =>
+      let idx := s.table.length
+      match addArgumentSpec s.table (toChars bs) idx with
+      | .ok t => ({ table := t }, s!"ok idx={idx}")
+      | .throw e => (s, s!"throw {e.name}")
+      | .oob w => (s, s!"oob {w}")
+    | none => (s, "bad-op")
+  | ["keys", "find", abbr, hx] =>
+    match hexDecode hx, abbr == "0" || abbr == "1" with
+    | some bs, true =>
+      (s, findLine (do let k ← Key.parse (toChars bs); findArg (abbr == "1") s.table k))
+    | _, _ => (s, "bad-op")
+  | ["keys", "findc", abbr, hx] =>
+    match hexDecode hx, abbr == "0" || abbr == "1" with
+    | some [b], true => (s, findLine (findArg (abbr == "1") s.table (Key.ofChar (Char.ofNat b))))
+    | _, _ => (s, "bad-op")
+  | ["keys", "parse", hx] =>
+    match hexDecode hx with
+    | some bs =>
+      (s, resLine (Key.parse (toChars bs)) fun k =>
+        let sh := match k.short with | some c => [c.toNat] | none => []
+        s!"ok short={hexOut sh} long={hexOut (ofChars k.long)} str={hexOut (ofChars k.toString)}")
+    | none => (s, "bad-op")
+  | ["keys", "cmp", ha, hb] =>
+    match hexDecode ha, hexDecode hb with
+    | some a, some b =>
+      (s, resLine (do let ka ← Key.parse (toChars a); let kb ← Key.parse (toChars b); pure (ka, kb)) fun (ka, kb) =>
+        s!"ok eq={b01 (ka.eq kb)} mismatch={b01 (ka.mismatch kb)} sw={b01 (ka.startsWith kb)} lt={b01 (ka.lt kb)}")
+    | _, _ => (s, "bad-op")
+  | _ => (s, "bad-op")
+
+def main : IO Unit := run ({} : St) step
